@@ -303,6 +303,10 @@ def run(chk, repo):
            "a _PAR_Y copy can overwrite the mapping of its chrX gene: FusionCatcher fusions of PAR genes are emitted on the N-masked chrY copy (no junction peptides)",
            key=cm.qual + '::par-y-first-wins', fn=cm.qual)
     from rules.shared import kwname
+    from rules.C13 import info_shift_rules
+    chk.rule('C15.m', 'R-KEYS (shared with C13.b): the INFO column writes every attribute of a fusion record, positions shifted +1 and read back -1', 2)
+    chk.clauses.append('C15.m (shared with C13.b) every attribute of a fusion record is written to the INFO column (ACCEPTER_POSITION = 0 included) with position attributes shifted +1, and read back -1')
+    info_shift_rules(chk, repo, 'C15.m')
     from rules.C06 import rule_identity
     chk.clauses.append('C15.l (shared with C06.g) the identity (hash / eq) of a variant record covers the fusion acceptor attributes: set() de-duplication cannot merge two fusions of one donor breakpoint')
     rule_identity(chk, repo, 'C15.l')
